@@ -13,8 +13,10 @@ from bv.engine.pool import HarnessError
 
 VERIF = bv.VERIF
 FINDINGS_FILE = os.path.join(VERIF, "known_findings.json")
-EVIDENCE_DIR = os.path.join(VERIF, "evidence")
-REPLAY_DIR = os.path.join(VERIF, "replays")
+# runs against scratch copies (seeded changes) must not overwrite the evidence of the tree under /repo
+EVIDENCE_DIR = os.environ.get("BV_EVIDENCE_DIR") or os.path.join(VERIF, "evidence")
+REPLAY_DIR = os.environ.get("BV_REPLAY_DIR") or (os.path.join(os.environ["BV_EVIDENCE_DIR"], "replays")
+                                                 if os.environ.get("BV_EVIDENCE_DIR") else os.path.join(VERIF, "replays"))
 
 DEFAULT_BUDGET = {"quick": 100.0, "thorough": 1500.0}
 
